@@ -65,6 +65,8 @@ def main():
                     p = l.split('replay=')[1].split()[0]
                     try:
                         what = str(json.load(open(p)).get('what', ''))[:300]
+                        os.makedirs(os.path.join(V, 'seeded', sid), exist_ok=True)
+                        shutil.copy(p, os.path.join(V, 'seeded', sid, 'replay_found_by_%s.json' % pid))
                     except Exception:
                         pass
                     break
